@@ -47,6 +47,23 @@ impl Deref for Page {
 }
 
 impl Page {
+    // Returns the values of the `len` cells at positions `offset..offset + len` of the page,
+    // provided they sit at the consecutive addresses `addr, addr + 1, ...`. Returns `None` when
+    // the page is too short or a cell is at another address.
+    pub fn extract_range(&self, offset: usize, addr: Felt, len: usize) -> Option<Vec<&Felt>> {
+        let cells = self.get(offset..offset.checked_add(len)?)?;
+        let mut expected_address = addr;
+        let mut values = Vec::new();
+        for cell in cells {
+            if cell.address != expected_address {
+                return None;
+            }
+            values.push(&cell.value);
+            expected_address += Felt::ONE;
+        }
+        Some(values)
+    }
+
     // Returns the product of (z - (addr + alpha * val)) over a single page.
     pub fn get_product(&self, z: Felt, alpha: Felt) -> Felt {
         let mut res = Felt::ONE;
